@@ -13,7 +13,8 @@ V = os.path.dirname(os.path.dirname(os.path.abspath(__file__)))
 # checks run in addition to the change's own property (the property whose subject the trigger is)
 ALSO = {"C07-3": ["C14"], "C03-3": ["C14"], "C08-4": ["C09"], "C08-3": ["C18"], "C10-3": ["C16"], "C01-4": ["C04"],
         "C03-4": ["C01"], "C05-1": ["C03"], "C01-2": ["C03"], "C09-5": ["C08"], "C14-6": ["C11"], "C01-5": ["C08", "C11"],
-        "C01-6": ["C07"], "C13-6": ["C01"], "C06-6": ["C04"]}
+        "C01-6": ["C07"], "C13-6": ["C01"], "C06-6": ["C04"], "C01-7": ["C09"], "C02-8": ["C05"], "C08-8": ["C09"],
+        "C05-7": ["C14"], "C04-7": ["C01", "C11"], "C17-7": ["C10"], "C14-8": ["C12"], "C05-8": ["C03"]}
 
 
 def run(lane, ids):
